@@ -461,8 +461,8 @@ class Models:
         def str_index(I, s, r):
             s = as_str(s)
             a, b = range_bounds(r, s.len())
-            conc(I, a, 'str index')
-            conc(I, b, 'str index')
+            a = conc(I, a, 'str index')
+            b = conc(I, b, 'str index')
             return s.sub(a, b)
         pat(r'^<(str|String) as Index<(std::ops::)?Range\w*<usize>>>::index$', str_index)
 
@@ -689,7 +689,7 @@ class Models:
 
         def split_at(I, s, mid):
             s = as_str(s)
-            conc(I, mid, 'split_at index')
+            mid = conc(I, mid, 'split_at index')
             if not s.is_boundary(mid):
                 raise Panic('split_at: not a char boundary')
             return Agg('()', [s.sub(0, mid), s.sub(mid, s.len())])
@@ -906,10 +906,12 @@ class Models:
             l, a, b = as_list(v)
             if isinstance(deref(i), Agg):
                 x, y = range_bounds(i, b - a)
+                x = conc(I, x, 'slice range start')
+                y = conc(I, y, 'slice range end')
                 if not (0 <= x <= y <= b - a):
                     raise Panic('slice index out of range')
                 return Slice(l, a + x, a + y)
-            conc(I, i, 'vec index')
+            i = conc(I, i, 'vec index')
             if not 0 <= i < b - a:
                 raise Panic('index out of bounds: the len is %d but the index is %d' % (b - a, i))
             return Ptr(l, a + i)
@@ -936,7 +938,7 @@ class Models:
 
         def s_get(I, s, i):
             l, a, b = as_list(s)
-            conc(I, i, 'slice index')
+            i = conc(I, i, 'slice index')
             return Some(Ptr(l, a + i)) if 0 <= i < b - a else NONE()
         pat(r'^core::slice::<impl \[.*\]>::get$', s_get)
 
@@ -971,7 +973,7 @@ class Models:
 
         def s_truncate(I, st, n):
             st = deref(st)
-            conc(I, n, 'truncate length')
+            n = conc(I, n, 'truncate length')
             if n >= st.blen():
                 return
             s = st.as_str()
